@@ -10,6 +10,27 @@ SOLO_TECH = ("TLA+ single-handler adversarial model (Solo.tla over the SrcCore /
              "TLC invariant of every input sequence up to the depth bound; TLC-enumerated sequences replayed into the real "
              "handler; recorded executions validated against the transducers and judged by the same TLA+ monitor")
 CLAIMED = {
+    "C11": dict(
+        text="TLC checks on the closed model with several put requests on the same handler records that, whatever drop / duplicate "
+             "faults and cancel requests by either user hit the earlier transactions, a later transaction the environment leaves "
+             "alone ends successfully with an identical file, like on fresh handlers (invariant LastTxnGood; C01 throughout). The "
+             "multi-transaction schedules are executed on one pair of real handler objects and validated against the transducers "
+             "(which carry every piece of state a handler keeps across transactions). A differential driver runs a transaction "
+             "after random histories (completed, cancelled by either user, faulted to the limits, cut off and abandoned, reset) and "
+             "next to busy sibling instances, and the same transaction on fresh handlers; the C11 monitor, evaluated by TLC, "
+             "demands event-by-event agreement of PDUs, indications, callbacks, exceptions, public state and files.",
+        ref="DESIGN.md section 6 C11", tech=PAIR_TECH + "; differential executions compared by a TLA+ monitor",
+        note="Trusted: TLC; harness projection. The fresh run is given the provider value and destination file of the reused run."),
+    "C16": dict(
+        text="In the closed TLA+ model every file effect is an operation on the model's filestore variables (no other file state), and "
+             "TLC checks C01 / DoneIsGood on it. Every schedule of the nominal configuration families (all checksum types, target "
+             "shapes, metadata-only, several transactions), of K<=1 fault schedules (incl. payload corruption and rejected writes) "
+             "and of all cancel points is executed twice on the real handlers - on the sandboxed NativeFilestore and on a purely "
+             "in-memory VirtualFilestore whose paths do not exist on the host. Both executions are validated against the "
+             "transducers, and the C16 monitor (evaluated by TLC) demands that they agree event by event, that no host path of "
+             "the pretended sandbox is opened during a handler call (sys audit hook) and that the host is untouched afterwards.",
+        ref="DESIGN.md section 6 C16", tech=PAIR_TECH + "; native vs in-memory filestore executions compared by a TLA+ monitor",
+        note="Trusted: TLC; harness projection; the harness's in-memory VirtualFilestore; CPython audit events for open()/os.*."),
     "C04": dict(
         text="The C04 observers - expiries counted from the clock and the emitted PDUs only: a re-send or limit fault never before "
              "now - last (re-)emission >= interval; a re-send at every earlier expiry; Positive ACK Limit / NAK Limit Reached "
